@@ -11,7 +11,7 @@ from . import common, mapfam
 
 ID = 'C08'
 LEVEL = 'exploration'
-QUOTA = {'quick': 1000, 'thorough': 10000}
+QUOTA = {'quick': 2000, 'thorough': 10000}
 BUDGET = {'quick': 100, 'thorough': 900}
 RULE = ('scenario = generated world with a synthetic marker table (missing parents, empty lists, duplicates, genes '
         'absent from the query) x minimum-marker setting x flatten/drop_level x seeded schedule; a quarter of the '
